@@ -3,6 +3,7 @@ package props
 import (
 	"encoding/json"
 	"fmt"
+	"io"
 	"net"
 	"net/http"
 	"net/http/httptest"
@@ -320,6 +321,38 @@ func c19Binary(e *core.Env) error {
 			}
 			if session == "" {
 				e.Add(core.Case{Impl: "login with the configured password issued no cookie", Spec: "cookie issued", Key: fmt.Sprintf("c19-bin-login %v %v", disable, enforceLB), Tags: []string{"binary"}})
+			}
+			if !disable && enforceLB {
+				// look-alike paths: no spelling of a protected route reaches its handler without a session.
+				// An unauthenticated request may be redirected, refused, or given what the public catch-all
+				// page gives for any unknown path — never anything else
+				get := func(method, path string) (int, string, string) {
+					req, _ := http.NewRequest(method, fmt.Sprintf("http://127.0.0.1:%d%s", p.port, path), strings.NewReader("{"))
+					resp, err := cl.Do(req)
+					if err != nil {
+						return 0, "", ""
+					}
+					defer resp.Body.Close()
+					b, _ := io.ReadAll(resp.Body)
+					return resp.StatusCode, resp.Header.Get("Location"), string(b)
+				}
+				_, _, indexBody := get("GET", "/no-such-page")
+				for _, route := range []string{"/add-source", "/save-source", "/add-integration", "/save-integration", "/task-updates"} {
+					for _, v := range []string{route + "/", route + "//", "/" + route, route + "/x", "/x/.." + route, strings.ToUpper(route), route + "%2f", route + "/?a=1", "/." + route, route + "/index.html"} {
+						for _, method := range []string{"GET", "POST"} {
+							code, loc, body := get(method, v)
+							impl := "not-served"
+							switch {
+							case code == 0 || code/100 == 3 || code == 404 || code == 405 || code == 400:
+							case body == indexBody:
+							default:
+								impl = fmt.Sprintf("status %d, %d bytes that are not the public page (Location %q)", code, len(body), loc)
+							}
+							e.Add(core.Case{Impl: impl, Spec: "not-served", Key: fmt.Sprintf("authn-bin-path %s %s", method, v), Nontrivial: true,
+								Tags: []string{"binary", "look-alike-path"}, Detail: map[string]any{"path": v, "method": method, "status": code}})
+						}
+					}
+				}
 			}
 			for _, peer := range peers {
 				lb := net.ParseIP(peer).IsLoopback()
